@@ -145,10 +145,17 @@ def add_outcome(res, case, out, keep_digest=True, _seen=None):
 
 def safe_evaluate(mod, case):
     """evaluate() with Failure exceptions folded into the outcome."""
+    t0 = time.time() if os.environ.get('VP_TIMING') else None
     try:
         return mod.evaluate(case)
     except Failure as f:
         return outcome(failures=[(f.bucket, f.detail)], labels=['failure-raised'], nontrivial=True)
+    finally:
+        if t0 is not None:
+            # diagnostic only: where a shard's time goes
+            with open(os.environ['VP_TIMING'], 'a') as fh:
+                import threading
+                fh.write(f'{os.getpid()} {time.time() - t0:.2f} threads={threading.active_count()} {json.dumps(case, default=str)[:600]}\n')
 
 
 # --------------------------------------------------------------------------- known findings
